@@ -96,6 +96,11 @@ def history(s, hidx):
     # the roDelete may be addressed to another running-order ID: it completes this one all the same
     env_ = {'mos_id': None, 'ncs_id': 'NCS'} if rng.random() < 0.3 else {}      # the roDelete envelope may lack <mosID>
     msg = B.msg_doc('roDelete', 400, ro_id=('RO' if rng.random() < 0.7 else 'ANOTHER RO'), pretty=rng.random() < 0.5, **env_)
+    if rng.random() < 0.12:
+        # ... or lack its messageID element altogether
+        import re
+        msg = re.sub(r'\s*<messageID>[^<]*</messageID>', '', msg, count=1)
+        s.hist['roDelete_without_messageID'] += 1
     ro, err, v, ev = s.step(ro, msg, {'history': hidx, 'phase': 'roDelete'})
     if ev is not None and ev.get('post_xml'):
         cur = ev['post_xml']
